@@ -11,6 +11,8 @@ if ! git diff --quiet; then echo "$REPO has local modifications, refusing"; exit
 if ! git apply --check "$D/patch.diff" 2>/dev/null; then echo "RESULT $(basename $D): PATCH DOES NOT APPLY"; exit 2; fi
 git apply "$D/patch.diff"
 CAUGHT=""; ERR=""
+# evidence of runs against the modified repository goes to a scratch directory
+export BPAFMC_EVIDENCE=$HERE/target/seeded-evidence
 for c in $CHECKS; do
   OUT=$(cd "$HERE" && timeout 1200 ./check $c quick 2>&1); RC=$?
   if [ $RC -eq 1 ]; then CAUGHT="$CAUGHT $c"; fi
